@@ -19,14 +19,14 @@ KINDS = {
     "var_all": dict(kind="var", vmin=True, vmax=True, allowed=3),
 }
 CONTEXTS = ["none", "worker", "precedence", "select", "cumulative", "buffer", "objective", "optional_constraint",
-            "second_task_first"]
+            "second_task_first", "after_first_solver", "after_first_solve_and_export"]
 
 
 def _context(P, ctx, ti, what):
     """Other model elements declared next to the task under test (cross-talk detection)."""
     if what == "none":
         return
-    if what == "second_task_first":
+    if what in ("second_task_first", "after_first_solver", "after_first_solve_and_export"):
         return  # handled before creating the task
     if what == "worker":
         w = ps.Worker(name="W")
@@ -63,6 +63,16 @@ def _shape(kname, optional, release, due, horizon, context, cfg=None):
         pb, hv = new_problem(P, horizon)
         if context == "second_task_first":
             ps.FixedDurationTask(name="O", duration=2, optional=True)
+        if context in ("after_first_solver", "after_first_solve_and_export"):
+            # history: the problem was already handed to a solver before the task under test is declared
+            o = ps.FixedDurationTask(name="O", duration=2)
+            ps.TaskStartAfter(task=o, value=1)
+            s0 = ps.SchedulingSolver(problem=pb)
+            if context == "after_first_solver":
+                s0.initialize()
+            else:
+                s0.solve()
+                s0.export_to_smt2(__import__("os").path.join(__import__("tempfile").gettempdir(), "c01_hist.smt2"))
         ti = make_task(P, "A", optional=optional, release=release, due=due, **KINDS[kname])
         ctx = Ctx(problem=pb, ti=ti, horizon=hv)
         _context(P, ctx, ti, context)
